@@ -7,7 +7,8 @@ EXPLANATION = ("C20 (feature ram_bundle): (R1) the header and table-entry layout
                "bounds-checked pread_with; (R3) the magic, index, empty-slot and zero-length guards dominate what they protect; "
                "(R4) fields are widened before arithmetic and offsets are header + id*entry, startup + entry.offset, length-1; "
                "(R5) the module iterator skips exactly the empty slots; (R6) recognition is a sibling of parse; (R7) "
-               "panic-freedom of the six observed entry points (64-bit usize).")
+               "panic-freedom of the six observed entry points (64-bit usize)."
+               " (R8) the crate's iterators implement `next` only; (R6b) the RamBundle wrappers return only what the selected flavour returned.")
 NOT_DECIDED = "byte-exact equality of returned slices with what a writer wrote; scroll's own bounds checks (trusted)."
 ASSUMPTIONS = ["crate built with feature ram_bundle"]
 
